@@ -23,6 +23,10 @@ def run(ctx) -> None:
 
     ctx.guard("C19.fresh-result", memo_rule, "C19.fresh-result", ("robotools/utils.py",))
     ctx.guard("C19.cycle", _buffers)
+    from .common import arg_mutation_rule
+
+    ctx.guard("C19.fresh-result", arg_mutation_rule, "C19.fresh-result", ("get_trough_wells",),
+              "the caller's well list is overwritten by the result (a later call cycles over fewer wells, n = 0 empties it)")
 
 
 def _buffers(ctx) -> None:
